@@ -49,6 +49,8 @@ func main() {
 			childMicro(cfg)
 		case "stress":
 			childStress(cfg)
+		case "replay":
+			childReplay(cfg)
 		default:
 			Must(fmt.Errorf("unknown child phase %q", *childFlag))
 		}
@@ -237,7 +239,9 @@ func classify(a, b string) string {
 	if (connReplacers[a] && connUsers[b]) || (connReplacers[b] && connUsers[a]) {
 		return "redial:socket.Reset~unlocked-socket-use"
 	}
-	if a == "socket.(*socket).Read" && b == "socket.(*socket).Read" {
+	// two read loops share the bufio.Reader (and its sticky error value, which the second loop
+	// formats in readDisconnected)
+	if (a == "socket.(*socket).Read" || a == "(*session).readDisconnected") && b == "socket.(*socket).Read" {
 		return "redial:two-read-loops-on-one-socket"
 	}
 	return ""
@@ -290,8 +294,19 @@ func parent(cfg *RunCfg) {
 			continue
 		}
 		var racy []string
-		for x, a := range strings.Fields(parts[1]) {
-			if racyAddr[a] {
+		racyLoc := map[int]bool{}
+		nLoc := 0
+		for _, set := range strings.Split(parts[1], " ; ") {
+			fs := strings.Fields(set)
+			nLoc = len(fs)
+			for x, a := range fs {
+				if racyAddr[a] {
+					racyLoc[x] = true
+				}
+			}
+		}
+		for x := 0; x < nLoc; x++ {
+			if racyLoc[x] {
 				racy = append(racy, VN(int64(x)))
 			}
 		}
